@@ -38,6 +38,45 @@ func VerifC14SharedProfiles() {
 	})
 }
 
+
+// histHosts: hosts for the history-independence harness; the non-ASCII ones are accepted by IDNA,
+// two of them are each other's ISO 8859-1 / UTF-8 misreadings (relevant to the Semantic profile,
+// which decodes the host with an encoding override before IDNA).
+var histHosts = []string{"h", "EXAMPLE.com", "bücher.de", "Ã¸l.no", "øl.no", "xn--bcher-kva.de", "1.2.3.4", "[::1]", "a%2Db", "0x7f.1"}
+
+// VerifC14HistoryProfiles: "every call returns exactly what it returns when run alone": the result of
+// a call on one profile does not depend on which calls - on the same or another profile, with the
+// same or another host - were made in the process before it. Sequence: A(in1) ; B(in2) ; A(in1),
+// first and last result must agree. (With goroutines the middle call is "some other goroutine got
+// there first".) Natively each witness is replayed in a fresh process.
+func VerifC14HistoryProfiles() {
+	ai := vnd.Pick(len(profiles))
+	bi := vnd.Pick(len(profiles))
+	hi := vnd.Pick(len(histHosts))
+	hj := hi
+	if vnd.Bool() {
+		hj = (hi + 1) % len(histHosts)
+	}
+	w := vnd.Str(vnd.Len(vnd.Param("C14.KHist", 1, 2)))
+	in1 := "http://" + histHosts[hi] + "/" + w
+	in2 := "http://" + histHosts[hj] + "/" + w
+	a, b := profiles[ai], profiles[bi]
+	u1, e1 := a.Parse(in1)
+	s1 := snapImpl(u1, e1)
+	if ub, eb := b.Parse(in2); eb == nil {
+		_ = ub.Href(false)
+	}
+	u2, e2 := a.Parse(in1)
+	s2 := snapImpl(u2, e2)
+	vnd.Cover("history-second-call-succeeds", !s2.fail)
+	if d := verifCheckSnap(s1, s2); d != "" {
+		observeSnap("alone.", s1)
+		observeSnap("after.", s2)
+		vnd.Fail("C14: a call returns something else after other calls were made in the process: " + d + " differs (profile " + profileNames[ai] + " after " + profileNames[bi] + ")")
+	}
+}
+
 func init() {
 	verifHarnesses["VerifC14SharedProfiles"] = VerifC14SharedProfiles
+	verifHarnesses["VerifC14HistoryProfiles"] = VerifC14HistoryProfiles
 }
